@@ -47,6 +47,7 @@ type errFlow struct {
 	sentinels  map[types.Object]bool
 	funcs      []*efFunc
 	exempt     map[string]string // "func|callee" -> reason
+	caseTag    map[ast.Expr]ast.Expr // case expression of a tagged switch -> the switch tag
 }
 
 var errType = types.Universe.Lookup("error").Type()
@@ -85,6 +86,25 @@ func newErrFlow(c *Ctx, sentinelPaths []string, exempt map[string]string) *errFl
 				}
 			}
 		}
+	}
+	// `switch err { case nil: … case sentinel: … default: … }`: go/cfg makes each
+	// case expression a two-way condition; it means tag == expression
+	ef.caseTag = map[ast.Expr]ast.Expr{}
+	for _, file := range c.Root.Syntax {
+		ast.Inspect(file, func(n ast.Node) bool {
+			sw, ok := n.(*ast.SwitchStmt)
+			if !ok || sw.Tag == nil {
+				return true
+			}
+			for _, st := range sw.Body.List {
+				if cc, ok := st.(*ast.CaseClause); ok {
+					for _, e := range cc.List {
+						ef.caseTag[e] = sw.Tag
+					}
+				}
+			}
+			return true
+		})
 	}
 	// collect function bodies: declarations and literals
 	for _, file := range c.Root.Syntax {
@@ -846,6 +866,9 @@ func (w *efWalker) walk(b *cfg.Block, idx int, st absState, t *tracked, path []s
 		isCond := len(b.Succs) == 2 && i == len(b.Nodes)-1
 		if isCond {
 			if cond, ok := n.(ast.Expr); ok {
+				if tag, isCase := ef.caseTag[cond]; isCase {
+					cond = &ast.BinaryExpr{X: tag, Op: token.EQL, Y: cond}
+				}
 				w.branch(b, cond, st, t, path)
 				return
 			}
